@@ -52,7 +52,7 @@ w_char = Fn(FW, "maybe_expect_char", impl=WI, impl_header=WI, slot="syntax", mod
     requires=[C("not_the_end_of_text_character", "!same_ignoring_ascii_case('\\0', wanted_char)", ["C03"])],
     ensures=[C("takes_the_character_or_nothing", "(match char_step(*old(self), wanted_char) { Some(w2) => res && *final(self) == w2, None => !res && *final(self) == *old(self) })")])
 w_over = Fn(FW, "is_over", impl=WI, impl_header=WI, slot="syntax", mode="stub", ret="res", key="Walker::is_over", ensures=[C("over", "res == over(*self)")])
-w_next_token = Fn(FW, "next_token", impl=WI, impl_header=WI, slot="syntax", mode="stub", ret="res", key="Walker::next_token", ensures=[C("blank_next", "(res.kind is Whitespace) == next_is_blank(*self)")])
+w_next_token = Fn(FW, "next_token", impl=WI, impl_header=WI, slot="syntax", mode="stub", ret="res", key="Walker::next_token", ensures=[C("the_very_next_token", "res.kind == next_kind(*self)")])
 w_next_char = Fn(FW, "next_char", impl=WI, impl_header=WI, slot="syntax", mode="stub", ret="res", key="Walker::next_char")
 with_expr = Fn(FM, "match_with_expr", slot="asm", mode="stub", ret="res", key="matcher::match_with_expr",
     ensures=[C("expression_parameter_matches", "res@ == expr_cands(defs, *rule, walker, needs_consume_all_tokens, at_pattern_part as int, enable_lookahead, match_so_far)")])
